@@ -127,10 +127,12 @@ REFINE = ("Every API call of the session model is proved to be a finite sequence
 
 hist_prop("C01",
     ["c01_every_call_refines", "c01_record_kept", "c01_record_leaves_only_by_puback", "c01_record_leaves_only_by_pubcomp", "c01_no_fault_stops_it"],
-    ["liveness (c01_settles: under a good suffix every exchange closes) is not a theorem; it is judged on histories that end with a benign environment (settled_exchanges) and on the scripted fault scenarios",
+    ["liveness exists as bounded progress in the closed world AloWorld.v (at-least-once sender + conforming broker + one FIFO connection, faults: Break, failed Save/Delete, failed or partial resend, Close, Restart): from every reachable state one Restart plus exactly amu fault-free steps reach the state where every accepted message was forwarded at least once and every exchange is closed (c01_restart_good_run_exists); no fairness theorem; on the real client the clause is judged on histories that end with a benign environment (settled_exchanges) and on the scripted fault scenarios",
+     "AloWorld's resend list has the shape proved in ResendOrder.resend_writes_level1 but is linked to it by citation, not formally; the exactly-once level is BrokerWorld.v (C03)",
      "'written in full' / 'resent on each connection' are judged on histories (c01_ok, c05_ok, hist_agree), the theorems cover the Persistence and counters"],
     "C01 generator: window sizes 1-16, fault rate up to 12 %, Persistence faults up to 8 %, acknowledgements withheld up to 40 %.",
     REFINE + "Corollaries: a record stays until the in-order final acknowledgement is applied and leaves only in that step together with the queue head. "
+    "Closed loop (AloWorld.v): every acknowledged message was forwarded by the broker (c01_acked_forwarded), the lower end of the window moves only by the in-order PUBACK of a forwarded message, the exchange queue is popped only then (c01_exchange_closes_only_by_ack), an in-flight identifier stands for exactly one message of the window across the 14-bit wrap, and the client never meets an out-of-order PUBACK on a live connection with a conforming broker (c01_alo_never_rejects). "
     "The model is tied to the real client by recorded histories; c01_ok judges the implementation's trace alone (delete only after the ack was read, in order; exchange closes only with a delete).",
     "Trusted: Coq kernel; the Session model (validated on every run); harness. Safety only; liveness is sampled.",
     "Coq refinement + invariant proof over all histories/fault scripts + model/implementation correspondence")
